@@ -197,16 +197,24 @@ fn check_ty<T: Elem>(case: &Case) -> Result<(), String> {
         if (&*v).len() != 0 {
             return Err(format!("NULL+0 DiplomatSlice<{}> derefs to len {}", ty, (&*v).len()));
         }
+        // a valid empty slice has a non-null pointer that is aligned for T
+        let bad = |p: usize| std::hint::black_box(p) == 0 || std::hint::black_box(p) % std::mem::align_of::<T>() != 0;
+        if bad((&*v).as_ptr() as usize) {
+            return Err(format!("NULL+0 DiplomatSlice<{}> derefs to a slice at {:#x} (must be non-null and aligned to {})", ty, (&*v).as_ptr() as usize, std::mem::align_of::<T>()));
+        }
         let s: &[T] = v.into();
-        if !s.is_empty() || std::hint::black_box(s.as_ptr() as usize) == 0 {
+        if !s.is_empty() || bad(s.as_ptr() as usize) {
             return Err(format!("NULL+0 DiplomatSlice<{}> -> &[T] is not a valid empty slice", ty));
         }
         let mut vm: DiplomatSliceMut<T> = unsafe { from_mirror(nul) };
         if (&*vm).len() != 0 || (&mut *vm).len() != 0 {
             return Err(format!("NULL+0 DiplomatSliceMut<{}> deref not empty", ty));
         }
+        if bad((&*vm).as_ptr() as usize) || bad((&mut *vm).as_ptr() as usize) {
+            return Err(format!("NULL+0 DiplomatSliceMut<{}> derefs to a slice at {:#x} (must be non-null and aligned to {})", ty, (&*vm).as_ptr() as usize, std::mem::align_of::<T>()));
+        }
         let sm: &mut [T] = vm.into();
-        if !sm.is_empty() || std::hint::black_box(sm.as_ptr() as usize) == 0 {
+        if !sm.is_empty() || bad(sm.as_ptr() as usize) {
             return Err(format!("NULL+0 DiplomatSliceMut<{}> -> &mut [T] is not a valid empty slice", ty));
         }
         let mut vo: DiplomatOwnedSlice<T> = unsafe { from_mirror(nul) };
@@ -214,7 +222,7 @@ fn check_ty<T: Elem>(case: &Case) -> Result<(), String> {
             return Err(format!("NULL+0 DiplomatOwnedSlice<{}> deref not empty", ty));
         }
         let bo: Box<[T]> = vo.into();
-        if !bo.is_empty() || std::hint::black_box(bo.as_ptr() as usize) == 0 {
+        if !bo.is_empty() || bad(bo.as_ptr() as usize) {
             return Err(format!("NULL+0 DiplomatOwnedSlice<{}> -> Box<[T]> is not a valid empty box", ty));
         }
         drop(bo);
